@@ -3,6 +3,7 @@ use crate::util::*;
 use refmodel::strings::*;
 
 lang_kernel_ascii_str!(c01_unquoted_key_u4, any_utf8, 4, 6, unquoted_key, r_unquoted_key);
+lang_kernel_ascii_str!(c01_unquoted_key_u8, any_utf8, 8, 10, unquoted_key, r_unquoted_key);
 
 /// escape-seq-char: all well-formed UTF-8 strings <= 5 bytes (covers every one-letter escape and \uXXXX)
 #[kani::proof]
